@@ -20,6 +20,18 @@ CHECKS = {
             "Runtime monitor over ~80k (quick) / ~530k (thorough) hostile inputs (random bytes, token soup, every prefix and single-token edit of the shipped programs, nesting towers to depth 1000, semantic oddities, single-character edits), each fed to the real Analyze as entry module and as imported module text in crash-isolated workers; a Go panic, fatal error or lexer-call budget overrun (hook-decided, not time) refutes totality. Sampling, not proof: held on the executions produced.",
             "Trusts the lexer hook's call counting and the 2*|runes|+16 budget (calibrated: max observed far below); loops that neither lex nor recurse only hit the watchdog (inconclusive).",
             "runtime monitoring: crash-isolated differential fuzz-style workload + lexer-call budget hook", "fuzz-totality", "DESIGN.md §3 C05"),
+    "C06": ("exploration",
+            "Reference-model monitor of the real lexer: an independent reference lexer written from grammar.ebnf plus by-construction expectations; all ordered pairs of 107 lexeme classes x 8 separators x suffix contexts (exhaustive), operator triples, escape/number/keyword families, unicode, unterminated constructs, random soups and the shipped corpus (LF/CRLF/tab forms); exact token kind/value/span equality, rune coverage and span consistency are checked on ~0.8M (quick) / ~4.6M (thorough) token streams.",
+            "Trusts the reference lexer harness/lexref as the reading of grammar.ebnf; points the grammar leaves open are accepted both ways and listed in the evidence as unspecified.",
+            "runtime monitoring: real lexer vs independent reference lexer + constructive expectations", "lexref", "DESIGN.md §3 C06"),
+    "C11": ("exploration",
+            "Exhaustive enumeration (depth <= 3 quick / 4 thorough) of nesting contexts {loop, while, for, block, if, match arm/default, try, catch, call, operand, argument, let-init} around each exit kind {break, continue, return, return value, throw, fatal}, inside a scaffold with a live local, trace tags at every level and a second try and loop afterwards; each program runs on the VM (trace, outcome, residue and handler count at core exit via hooks) and on the interpreter and is compared with the reference evaluator.",
+            "Depth bound as stated; the reference evaluator defines the expected trace.",
+            "runtime monitoring: exhaustive nesting enumeration vs reference evaluator + residue/handler hooks", "prog-gen+model", "DESIGN.md §3 C11"),
+    "C18": ("exploration",
+            "Exhaustive cross product of type instances x every member the real analyzer lists (table read from ast.<Type>.Fields() at run time) x boundary argument tuples: key-set inclusion through the Go API in both value libraries, generated one-line programs run on both backends in crash-isolated workers, results checked for survival, advertised type and against a small reference model of the index-taking members and indexing.",
+            "The member table follows the analyzer at run time; the reference model of member results is harness code (props/c18/model.go).",
+            "runtime monitoring: exhaustive member x argument matrix on both runtimes vs reference model", "member-matrix", "DESIGN.md §3 C18"),
 }
 
 NOT_APPLICABLE_REASON = "check not built yet in this session (see DESIGN.md §3 for the planned monitor); not claimed until it runs silently on the unchanged tree"
